@@ -76,6 +76,10 @@ type Options struct {
 	Bounds    map[string]any
 	Extra     map[string]any
 	TrustBase []string
+	// AddStates/AddTransitions/AddTraces: counts of sequential (Engine Q/E) parts run by the parent before Main
+	AddStates, AddTransitions, AddTraces int64
+	ExtraSamples []any
+	NotExhaustive bool
 }
 
 // Main runs the jobs according to the mode (parent / worker / replay) and never returns.
@@ -280,13 +284,14 @@ func parent(run *ev.Run, jobs []Job, opt Options) {
 			samples = append(samples, s)
 		}
 	}
+	samples = append(samples, opt.ExtraSamples...)
 	if len(samples) == 0 {
 		samples = append(samples, "no sample")
 	}
 	cov := ev.Coverage{
-		"states":                        tot.Nodes,
-		"transitions":                   tot.Steps,
-		"traces_validated_against_impl": tot.Execs,
+		"states":                        tot.Nodes + opt.AddStates,
+		"transitions":                   tot.Steps + opt.AddTransitions,
+		"traces_validated_against_impl": int64(tot.Execs) + opt.AddTraces,
 		"executions":                    tot.Execs,
 		"scenarios":                     tot.Jobs,
 		"scenarios_total":               len(jobs),
@@ -300,7 +305,7 @@ func parent(run *ev.Run, jobs []Job, opt Options) {
 		"max_steps":                     tot.MaxSteps,
 		"determinism_rechecks":          tot.Det,
 		"alternatives_beyond_budget":    tot.Pruned,
-		"exhaustive":                    tot.JobsCapped == 0 && tot.Skipped == 0,
+		"exhaustive":                    tot.JobsCapped == 0 && tot.Skipped == 0 && !opt.NotExhaustive,
 		"bounds":                        opt.Bounds,
 		"rule":                          opt.Rule,
 		"samples":                       samples,
